@@ -505,6 +505,11 @@ mod proofs {
   }
   rel_k!(c05k_inside_neighbor_n4, Rel::Inside, Stop::Neighbor, false, 4);
   rel_k!(c05k_inside_end_n4, Rel::Inside, Stop::End, false, 4);
+  rel_k!(c05k_inside_end_n5, Rel::Inside, Stop::End, false, 5);
+  rel_k!(c05k_inside_field_end_n5, Rel::Inside, Stop::End, true, 5);
+  rel_k!(c05k_has_end_n5, Rel::Has, Stop::End, false, 5);
+  rel_k!(c05k_follows_end_n5, Rel::Follows, Stop::End, false, 5);
+  rel_k!(c05k_precedes_end_n5, Rel::Precedes, Stop::End, false, 5);
   rel_k!(c05k_inside_rule_n4, Rel::Inside, Stop::Rule, false, 4);
   rel_k!(c05k_inside_field_end_n4, Rel::Inside, Stop::End, true, 4);
   rel_k!(c05k_inside_field_rule_n4, Rel::Inside, Stop::Rule, true, 4);
